@@ -1,12 +1,12 @@
 /-
   generate_lingo of every AST class (drxtract/lingosrc/ast/*.py) and codegen/lingo.py.
 
-  Python's generators write to the tree in three places (inventory: Drx/Gen/Mutations.lean):
+  Python's generators write to the tree in two places (inventory: Drx/Gen/Mutations.lean):
     Statement.generate_lingo   code.use_parenthesis = False      (when the code is a CallFunction)
-    Symbol.generate_lingo      self.use_hash = False             (name in KNOWN_SYMBOLS)
     generate_lingo_code        f.global_vars = sorted(...)
-  (CallFunction.gv_as_sym used to be a fourth; since the F100 repair it returns a corrected copy of the argument list:
-   `gvAsSym`, folded into `lingoStrs gv` / `jsStrs gv`.)
+  (CallFunction.gv_as_sym used to be a third; since the F100 repair it returns a corrected copy of the argument list:
+   `gvAsSym`, folded into `lingoStrs gv` / `jsStrs gv`. Symbol.generate_lingo used to clear use_hash for KNOWN_SYMBOLS; since
+   F124 it only reads the flag.)
   Each write happens immediately before the only read of the written field in the same method, so the model is split into
     `lingo …`      the text, reading every such field through the write that precedes it, and
     `afterLingo …` the tree as a completed generation leaves it.
@@ -55,7 +55,7 @@ def commaJoinRev (l : List Str) : Str := joinWith (S ", ") l.reverse
 
 def leafLingo (c : Leaf) (name : Name) : Name :=
   match c with
-  | .propName => if nameInList PropTables.knownSymbolsVariable name then name else .s (S "the " ++ name.str)
+  | .propName => .s (S "the " ++ name.str)
   | .definedProp => name
   | .dateTime => .s (S "the " ++ name.str)
   | .menu => .s (S "menu " ++ name.str)
@@ -66,11 +66,16 @@ def leafLingo (c : Leaf) (name : Name) : Name :=
   | .const => constLingo name
   | _ => name      -- Node.generate_lingo: self.name
 
-/-- Symbol.generate_lingo (the write `use_hash = False` folded into the read) -/
+/-- Symbol.generate_lingo -/
 def symLingo (name : Name) (useHash : Bool) : R Name :=
-  if nameInList PropTables.knownSymbolsConstant name then .ok name
-  else if useHash then (name.asStr).map fun s => .s ('#' :: s)
-  else .ok name
+  if useHash then (name.asStr).map fun s => .s ('#' :: s) else .ok name
+
+/-- `len(params.operands) == 1 and isinstance(params.operands[0], Symbol) and params.operands[0].name in GO_WORDS`:
+    the word of `go loop` / `go next` / `go previous` -/
+def goWord (ops : List Node) : Option Name :=
+  match ops with
+  | [.sym n _ _] => if nameInList PropTables.goWords n then some n else none
+  | _ => none
 
 /-- `str_cond[1:-1]` -/
 def stripParens (s : Str) : Str := pySlice s 1 (-1)
@@ -125,7 +130,7 @@ mutual
       | none => pure (.s (S "the " ++ op ++ S " of " ++ t.str))
     | .propAcc _ obj prop, ind => do
       let t ← lingo false obj ind
-      if t == Name.s (S "me") then pure (.s prop)
+      if t == Name.s (S "me") ∧ obj.cls = .leaf .node then pure (.s prop)      -- `type(self.obj) is Node`
       else do
         let os ← t.asStr
         if startsWith os (S "_") ∨ os = S "tell_obj" then pure (.s (S "the " ++ prop))
@@ -153,16 +158,20 @@ mutual
       let t ← lingo true code ind
       let ts ← t.asStr
       pure (.s (indentOf ind ++ ts ++ S "\n"))
-    | .callFn name _ .none _ _ _, _ => .ok name
-    | .callFn name _ (.loadList _ _ ops) useParen _ _, ind =>
-      if ops.isEmpty then .ok name
+    | .callFn name _ .none useParen _ withResult _, _ =>
+      if useParen ∧ ¬ noParen ∧ ¬ withResult then (name.asStr).map fun nm => .s (nm ++ S "()") else .ok name
+    | .callFn name _ (.loadList _ _ ops) useParen _ withResult _, ind =>
+      if ops.isEmpty then
+        (if useParen ∧ ¬ noParen ∧ ¬ withResult then (name.asStr).map fun nm => .s (nm ++ S "()") else .ok name)
       else do
         let gv ← isListFn name
         if name == Name.s (S "sound") then do
           let mname ← lastNameGv gv ops           -- modif.name
           let l ← lingoStrsButLast ops ind
           pure (.s (S "sound " ++ mname.str ++ S " " ++ commaJoinRev l))
-        else do
+        else match (if name == Name.s (S "go") ∧ ¬ gv then goWord ops else none) with
+        | some w => pure (.s (S "go " ++ w.str))
+        | none => do
           let l ← lingoStrs gv ops ind
           let nm ← name.asStr
           if useParen ∧ ¬ noParen then pure (.s (nm ++ S "(" ++ commaJoinRev l ++ S ")"))
@@ -172,7 +181,7 @@ mutual
       let o ← lingo false obj ind
       let p ← lingo false params ind
       pure (.s (S "tell " ++ o.str ++ S " to " ++ name.str ++ S "(" ++ p.str ++ S ")"))
-    | .repeat_ _ _ cond stmts type start varname _sign, ind => do
+    | .repeat_ _ _ cond stmts type start varname _sign _, ind => do
       let ct ← lingo false cond 0
       let cs ← ct.asStr
       let cs := if startsWith cs (S "(") then stripParens cs else cs
@@ -197,7 +206,7 @@ mutual
       pure (.s (S "if " ++ ct.str ++ S " then\n" ++ a ++ b ++ indentOf ind ++ S "end if"))
     | .jump .., _ => .ok (.s (S "jump"))
     | .jz .., _ => .ok (.s (S "jz"))
-    | .tell _ operand stmts, ind => do
+    | .tell _ operand stmts _, ind => do
       let o ← lingo false operand 0
       let body ← lingoStmts stmts (ind + 1)
       pure (.s (S "tell " ++ o.str ++ S "\n" ++ body ++ indentOf ind ++ S "end tell"))
@@ -252,14 +261,14 @@ end
 
 /-- `cast(CallFunction, self.code).use_parenthesis = False` -/
 def clearParen : Node → Node
-  | .callFn n p ps _ it wr => .callFn n p ps false it wr
+  | .callFn n p ps _ it wr rc => .callFn n p ps false it wr rc
   | x => x
 
 mutual
   def afterLingo : Node → Node
     | .none => .none
     | .leaf c n p => .leaf c n p
-    | .sym name p useHash => .sym name p (useHash && !nameInList PropTables.knownSymbolsConstant name)
+    | .sym name p useHash => .sym name p useHash
     | .unary op p x => .unary op p (afterLingo x)
     | .binary op p l r => .binary op p (afterLingo l) (afterLingo r)
     | .spAssign p l r m => .spAssign p (afterLingo l) (afterLingo r) m
@@ -273,18 +282,18 @@ mutual
     | .toList p x => .toList p (afterLingo x)
     | .toDict p x => .toDict p (afterLingo x)
     | .stmt p code => .stmt p (clearParen (afterLingo code))
-    | .callFn name p (.loadList ln lp ops) up it wr =>
+    | .callFn name p (.loadList ln lp ops) up it wr rc =>
       -- `sound`: the modifier (last operand) is read by name only, never generated
-      .callFn name p (.loadList ln lp (if name == Name.s (S "sound") then afterLingoButLast ops else afterLingoList ops)) up it wr
-    | .callFn name p params up it wr => .callFn name p params up it wr
+      .callFn name p (.loadList ln lp (if name == Name.s (S "sound") then afterLingoButLast ops else afterLingoList ops)) up it wr rc
+    | .callFn name p params up it wr rc => .callFn name p params up it wr rc
     | .callMethod n p o ps => .callMethod n p (afterLingo o) (afterLingo ps)
-    | .repeat_ p e cond stmts type start varname sign =>
+    | .repeat_ p e cond stmts type start varname sign vr =>
       let start' := if type = S "while" then start else afterLingo start
-      .repeat_ p e (afterLingo cond) (afterLingoList stmts) type start' varname sign
+      .repeat_ p e (afterLingo cond) (afterLingoList stmts) type start' varname sign vr
     | .ifThen p c a b => .ifThen p (afterLingo c) (afterLingoList a) (afterLingoList b)
     | .jump p a => .jump p a
     | .jz p c a => .jz p c a
-    | .tell p o l => .tell p (afterLingo o) (afterLingoList l)
+    | .tell p o l cl => .tell p (afterLingo o) (afterLingoList l) cl
   def afterLingoList : List Node → List Node
     | [] => []
     | x :: r => afterLingo x :: afterLingoList r
